@@ -4,7 +4,7 @@ import ast
 import re
 
 from ..pycfg import CFG, walk_no_nested
-from ..source import AnalysisError, find_function, find_class, first_line, src, functions, qualname
+from ..source import dict_key_writes, AnalysisError, find_function, find_class, first_line, src, functions, qualname
 
 SER = "nemoguardrails/colang/v2_x/runtime/serialization.py"
 FLOWS = "nemoguardrails/colang/v2_x/runtime/flows.py"
@@ -194,15 +194,20 @@ def b_types(ctx, enc):
                   "field type %s (%s.%s) has no encoder branch" % (nm, cn, src(s.target)), line=s.lineno)
     # (2) values a Colang assignment can produce: return types of the functions in eval.py's function table
     te = ctx.tree.ast(EVAL)
-    table = None
+    # the table = every constant key written into the mapping that receives the key "regex" (one dict literal, an update, or key-by-key stores)
+    entries = []
+    for fn_ in functions(te):
+        writes = list(dict_key_writes(fn_))
+        maps = {m for m, k, v, site in writes if k == "regex"}
+        entries += [(ast.Constant(value=k), v) for m, k, v, site in writes if m in maps and isinstance(k, str)]
     for d in ast.walk(te):
         if isinstance(d, ast.Dict) and any(isinstance(k, ast.Constant) and k.value == "regex" for k in d.keys):
-            table = d
-    if table is None:
+            entries += [(k, v) for k, v in zip(d.keys, d.values) if isinstance(k, ast.Constant)]
+    if not entries:
         raise AnalysisError("expression function table not found in eval.py", anchor=EVAL + "::functions table")
     fdefs = {f.name: f for f in functions(te)}
     produced = {}
-    for k, v in zip(table.keys, table.values):
+    for k, v in entries:
         if isinstance(v, ast.Name) and v.id in fdefs:
             f = fdefs[v.id]
             if f.returns is not None:
